@@ -102,8 +102,8 @@ pub fn dispatch(kind: &str, v: &Value) -> Option<Outcome> {
     }
 }
 
-pub fn run(ctx: &Ctx) -> i32 {
-    let mut st = ctx.run_replays(&dispatch);
+pub fn campaigns(ctx: &Ctx) -> Stats {
+    let mut st = Stats::default();
     let shapes = all_shapes(4, 3);
     let ns = shapes.len() as u64;
     st.merge(ctx.run_indexed(
@@ -131,6 +131,12 @@ pub fn run(ctx: &Ctx) -> i32 {
             .boxed()
     };
     st.merge(ctx.run_prop("random-pairs", total, strat, move |r| random_case(r, max_elems)));
+    st
+}
+
+pub fn run(ctx: &Ctx) -> i32 {
+    let mut st = ctx.run_replays(&dispatch);
+    st.merge(campaigns(ctx));
     finish(
         ctx,
         st,
